@@ -7,7 +7,7 @@ PID = "C03"
 
 def run(tier: str, seed: int) -> Report:
     sc = c03.scope(tier)
-    rep = Report(property_id=PID, level="exploration")
+    rep = Report(property_id=PID, level="other")
     rep.exhaustive = False
     rep.rule = (
         "evaluations = (pipeline, data set, mode): every chain of %s public operators after table d from the typed enumerator "
